@@ -51,7 +51,10 @@ def path_classifiers():
          has_hidden_segment(m['name']) and m['cfg']['mb'] and m['cfg']['gs'] and m['ast'].split(':')[1].split('/')[0] in ('g', 'G')),
         ('C02-group-segment-empty', lambda m: m['name'] is not None and m['impl'] is True and m['ub'] is False and
          group_first_segment(m['ast']) and
-         (m['cfg']['mb'] or '//' in m['name'] or m['name'].endswith('/') or n_nonempty(m['name']) < n_spat(m['ast']))),
+         (m['cfg']['mb'] or '//' in m['name'] or m['name'].endswith('/') or n_nonempty(m['name']) < n_spat(m['ast'])
+          or any(s in ('g', 'G') for s in m['ast'].split(':')[1].split('/')))),
+        ('C02-dotdir-guard-newline', lambda m: m['name'] is not None and m['impl'] is False and m['lb'] is True and
+         m['name'].rstrip('/').split('/')[-1] in ('.\n', '..\n')),
         ('C01-group-dot-guard-repeat', lambda m: m['name'] is not None and m['impl'] is False and m['lb'] is True and
          any(s.startswith('x') and ('xS' in s or 'xP' in s) for s in m['ast'].split(':')[1].split('/')) and
          any('.' in s[1:] for s in m['name'].split('/'))),
